@@ -201,6 +201,11 @@ def main(tier):
                 key = 'visibility:touching-shapes:segment-crosses-boundary-only-at-shape-vertices'
             if t == 'through-shape:via-two-of-its-vertices' and x['mode'] == 0:
                 key = 'visibility:segment-through-two-collinear-shape-vertices'
+            # class name only (the violation is the specification's): a connector end lies inside (or on the boundary of) a shape
+            def _inside(pt):
+                return any(min(p[0] for p in sh) <= pt[0] <= max(p[0] for p in sh) and min(p[1] for p in sh) <= pt[1] <= max(p[1] for p in sh) for sh in x['polys'])
+            if x['mode'] == 1 and t in ('through-shape', 'costlier-than-fresh-router') and (_inside(x['src']) or _inside(x['dst'])):
+                key += ':an-end-lies-inside-a-shape'
             vd.violation(key,
                          '%s after op %d of history %s (mode=%d P=%d): scene=%s %s->%s incremental=%s fresh=%s' %
                          (t, op, hists[hi], x['mode'], x['P'], [RC.poly_rect(s) for s in scene], [v // LS for v in x['src']], [v // LS for v in x['dst']], x['iraw'], x['fraw']),
